@@ -948,6 +948,7 @@ package server
 //@ unit (*Store).GetRelatedAtTime
 //@   prop C03 C06 C07
 //@   ghost delG intmap
+//@   ghost earlierG intset = emptyset()
 //@   ghost prevPredG int = 0
 //@   requires s != nil
 //@   requires [index-of-the-direction] from != nil ==> encBE16(from.RelationIndexFromKey, 0) == (from.Inverse ? 2 : 3)
@@ -975,7 +976,10 @@ package server
 //@     assert [C03,C06,C07:incoming-result-passed-the-dataset-time-and-predicate-filters] !(has(s.deletedDatasets, prevResult.DatasetID) && s.deletedDatasets[prevResult.DatasetID]) && (len(from.Datasets) == 0 || (exists k int :: 0 <= k && k < len(from.Datasets) && from.Datasets[k] == prevResult.DatasetID)) && prevResult.Time <= from.At && (from.Predicate == 0 || from.Predicate == prevResult.PredicateID)
 //@   at $1 call append#4 before
 //@     assert [C03,C06,C07:incoming-result-passed-the-dataset-time-and-predicate-filters] !(has(s.deletedDatasets, dsResult.DatasetID) && s.deletedDatasets[dsResult.DatasetID]) && (len(from.Datasets) == 0 || (exists k int :: 0 <= k && k < len(from.Datasets) && from.Datasets[k] == dsResult.DatasetID)) && dsResult.Time <= from.At && (from.Predicate == 0 || from.Predicate == dsResult.PredicateID)
+//@   at $1 call Equal#1 before
+//@     ghost earlierG := del != 1 ? add(earlierG, predID * 18446744073709551616 + relatedID) : earlierG
 //@   at $1 call append#5 before
+//@     assert [C03:outgoing-relation-not-already-returned-by-an-earlier-page] !has(earlierG, predID * 18446744073709551616 + relatedID)
 //@     assert [C07:result-dataset-not-deleted] !(has(s.deletedDatasets, datasetID) && s.deletedDatasets[datasetID])
 //@     assert [C03:result-dataset-in-scope] len(from.Datasets) == 0 || (exists k int :: 0 <= k && k < len(from.Datasets) && from.Datasets[k] == datasetID)
 //@     assert [C06:result-not-recorded-after-the-requested-instant] et <= from.At
@@ -1007,6 +1011,7 @@ package server
 //@     invariant seenIds != nil && added != nil && !foreign(seenIds) && !foreign(added)
 //@     invariant forall p uint64 :: has(seenIds, p) ==> seenIds[p] != nil && !foreign(seenIds[p]) && has(added, p) && added[p] != nil && !foreign(added[p])
 //@     invariant forall p uint64, r uint64 :: has(seenIds, p) && has(seenIds[p], r) ==> seenIds[p][r] != nil && !foreign(seenIds[p][r])
+//@     invariant forall p uint64, r uint64 :: has(earlierG, p * 18446744073709551616 + r) ==> has(added, p) && has(added[p], r) && added[p][r]
 //@   loop $1:7
 //@     invariant -1 <= $i && $i < len(from.Datasets)
 //@     invariant datasetIncluded <==> (len(from.Datasets) == 0 || (exists k int :: 0 <= k && k <= $i && from.Datasets[k] == datasetID))
